@@ -922,9 +922,10 @@ impl StoryState {
         incrementing_turn_index: bool,
     ) -> Result<(), StoryError> {
         // Changing direction, assume we need to clear current set of choices
+        let mut new_pointer = Story::pointer_at_path(&self.main_content_container, path)?;
+
         self.current_flow.current_choices.clear();
 
-        let mut new_pointer = Story::pointer_at_path(&self.main_content_container, path)?;
         if !new_pointer.is_null() && new_pointer.index == -1 {
             new_pointer.index = 0;
         }
@@ -1013,6 +1014,28 @@ impl StoryState {
             .current_pointer = Pointer::start_of(func_container);
 
         self.pass_arguments_to_evaluation_stack(arguments)?;
+
+        Ok(())
+    }
+
+    /// Checks that every argument is of a type that can be passed into ink,
+    /// without modifying anything.
+    pub fn validate_arguments(arguments: Option<&Vec<ValueType>>) -> Result<(), StoryError> {
+        if let Some(arguments) = arguments {
+            for arg in arguments {
+                match arg {
+                    ValueType::Bool(_)
+                    | ValueType::Int(_)
+                    | ValueType::Float(_)
+                    | ValueType::List(_)
+                    | ValueType::String(_) => {}
+                    _ => {
+                        return Err(StoryError::InvalidStoryState("ink arguments when calling EvaluateFunction / ChoosePathStringWithParameters must be \
+                        int, float, string, bool or InkList.".to_owned()));
+                    }
+                }
+            }
+        }
 
         Ok(())
     }
